@@ -42,6 +42,10 @@ structure CNode where
   cc : Bytes
   intended : Int
   ruleIdx : Int
+  /-- the validator of its answer (`[]` = none): a request whose If-None-Match names it is answered 304 -/
+  etag : Bytes := []
+  /-- the Cache-Control of that 304 (`[]` = `cc`) -/
+  cc304 : Bytes := []
   deriving Repr
 
 def CNode.toNode (n : CNode) : Node :=
@@ -122,6 +126,21 @@ def inClass_C18_d (nodes : List CNode) (chain : List (Hop × Option Rule)) : Boo
        | some n => cached' && n.redirect && mustNotStore n
        | none => false) || go cached' t
   go false chain
+
+/-- C09-b seen from C18: a node on the chain whose answer is stored (at a hop where some rule met so
+    far has a cache) carries a validator, and the 304 it answers a conditional request with carries a
+    Cache-Control of its own that forbids storing: when the stored entry is due, the handler hands
+    that 304 (no body) to the client — who sent no validator — instead of the chain's final
+    response.  `ticks` = the history lets time pass (an entry can be due). -/
+def inClass_C09_b (nodes : List CNode) (chain : List (Hop × Option Rule)) (ticks : Bool) : Bool :=
+  let rec go (cached : Bool) : List (Hop × Option Rule) → Bool
+    | [] => false
+    | (h, r) :: t =>
+      let cached' := cached || (match r with | some r => r.cacheId ≠ [] | none => false)
+      (match nodes[h.node]? with
+       | some n => cached' && n.etag ≠ [] && n.cc304 ≠ [] && Spec.C10.carriesAny (ccHeader n.cc304) && !mustNotStore n
+       | none => false) || go cached' t
+  ticks && go false chain
 
 /-! ### What was observed of one request -/
 
